@@ -33,10 +33,14 @@ fn rows(emu: &Emu) -> Vec<Value> {
 }
 
 fn finish_frame(emu: &mut Emu) {
+    finish_frames(emu, 1)
+}
+
+fn finish_frames(emu: &mut Emu, n: usize) {
     let cpu = emu.verif_cpu();
     cpu.regs.set_pc(CODE + 2);
     emu.set_debug_interface(VDebug::Never);
-    emu.set_speed(rustzx_core::EmulationMode::FrameCount(1));
+    emu.set_speed(rustzx_core::EmulationMode::FrameCount(n));
     emu.emulate_frames(Duration::from_secs(1000)).unwrap();
 }
 
@@ -230,6 +234,16 @@ pub fn run(args: &Args) {
                     midload = b as i32;
                     loaded_since = true;
                 }
+            }
+            // a host running at double speed asks for two frames per call and looks at the picture afterwards: it is the
+            // picture of the second frame - all of it in the colour the first one ended with
+            if midload < 0 && r.chance(1, 6) {
+                finish_frames(&mut emu, 2);
+                out.ev(json!({"ev":"bskip","writes":writes}));
+                out.ev(json!({"ev":"bframe","writes":[],"rows":rows(&emu),"reported":emu.border_color() as u8,
+                              "startcolor":emu.border_color() as u8,"midload":-1,"second_of_two":true}));
+                startcolor = emu.border_color() as u8;
+                continue;
             }
             finish_frame(&mut emu);
             out.ev(json!({"ev":"bframe","writes":writes,"rows":rows(&emu),"reported":emu.border_color() as u8,
